@@ -93,6 +93,9 @@ inductive Ev where
   | snoop (snooper : Nat) (data : List Byte)
   /-- an LPC error (raised by a snooper's receive_snoop) reached the caller of add_message -/
   | lpcerr
+  /-- the caller asked add_vmessage to format exactly this text (`"%s"` / `"%s%s"` of the pieces): the `wbeg v` that
+  follows shows what the formatting step produced -/
+  | vreq (data : List Byte)
   /-- out-of-bounds access / endless loop in the C code -/
   | fault (what : String)
   deriving Repr, DecidableEq
@@ -333,7 +336,8 @@ def step (s : St) : Op → St × List Ev
   | .sendres rs => ({ s with script := s.script ++ rs }, [])
   | .write v d =>
     let r := addMessage v d s
-    (r.1, r.2 ++ [stEv r.1])
+    -- add_vmessage formats first (vasprintf: the whole text, whatever its length); add_message takes the text as it is
+    (r.1, (if v then [Ev.vreq d] else []) ++ r.2 ++ [stEv r.1])
   | .flush =>
     if s.closed then (s, [stEv s])
     else let r := flushMsg s; (r.1, r.2.1 ++ [stEv r.1])
